@@ -1,6 +1,7 @@
 (* Lemmas about Model/Skin.v. *)
 From Coq Require Import List Bool Arith ZArith NArith Lia.
-From PC Require Import Base.Outcome Base.Mat Model.Skin.
+From PC Require Import Base.Outcome Base.Py Base.Mat Model.Skin.
+Close Scope Z_scope.
 Import ListNotations.
 
 (* ------------------------------------------------------------------ the partition loop *)
@@ -504,4 +505,55 @@ Proof.
   rewrite E, Hin.
   assert (E2 : Nat.eqb (length targets) (length vals / ncomp) = false) by (apply Nat.eqb_neq; exact Hl).
   rewrite E2. reflexivity.
+Qed.
+
+(* ------------------------------------------------------------------ accessors, BoundMorph *)
+Lemma norm_index_in_range len i : (0 <= i < Z.of_nat len)%Z -> norm_index len i = Some (Z.to_nat i).
+Proof.
+  intros [H0 H1]. unfold norm_index.
+  destruct (Z.leb_spec 0 i); [|lia]. destruct (Z.ltb_spec i (Z.of_nat len)); [reflexivity|lia].
+Qed.
+
+(* an accepted skin's JOINT / WEIGHT sources have one component per entry *)
+Lemma decode_ncomp d js ms ws wjs s :
+  decode d js ms ws wjs = Ok s -> src_ncomp wjs = 1 /\ src_ncomp ws = 1.
+Proof.
+  unfold decode. intro H.
+  destruct (negb (Nat.eqb (length (bind_of d)) 16)); [discriminate|].
+  destruct (negb (Nat.eqb (length (vals_of ms) mod 16) 0)); [discriminate|].
+  destruct (negb (Nat.eqb (length (names_of js)) (length (vals_of ms) / 16))); [discriminate|].
+  destruct (split_by_vcount _ _ _ _) as [[gs st]|e]; [|discriminate].
+  destruct (code_rejects_long_stream && _); [discriminate|].
+  destruct (negative_indices _ _); [discriminate|].
+  destruct (check_source wjs _) as [[]|] eqn:C1; [|discriminate].
+  destruct (check_source ws _) as [[]|] eqn:C2; [|discriminate].
+  apply check_source_ok in C1. apply check_source_ok in C2. tauto.
+Qed.
+
+Lemma get_joint_total wjs x :
+  is_names wjs = true -> (0 <= x < Z.of_nat (src_len wjs))%Z -> exists a, get_joint wjs x = Some a.
+Proof.
+  intros Hn Hx. unfold get_joint. rewrite (norm_index_in_range _ _ Hx).
+  destruct wjs as [idref names|nc vals]; [|discriminate]. simpl in *.
+  destruct (nth_error names (Z.to_nat x)) as [a|] eqn:E; [eauto|].
+  apply nth_error_None in E. lia.
+Qed.
+
+Lemma get_weight_total ws x :
+  is_floats ws = true -> src_ncomp ws = 1 -> (0 <= x < Z.of_nat (src_len ws))%Z ->
+  exists row, get_weight ws x = Some row.
+Proof.
+  intros Hf Hc Hx. unfold get_weight. rewrite (norm_index_in_range _ _ Hx).
+  destruct ws as [idref names|nc vals]; [discriminate|]. simpl in *. subst nc.
+  rewrite Nat.div_1_r in Hx.
+  assert (L : length (chunk 1 vals) = length vals) by (apply chunk_length; lia).
+  destruct (nth_error (chunk 1 vals) (Z.to_nat x)) as [r|] eqn:E; [eauto|].
+  apply nth_error_None in E. lia.
+Qed.
+
+Lemma bound_morph_get_nth path m i :
+  i < length (snd m) -> bound_morph_get (bind_morph path m) (Z.of_nat i) = nth_error (snd m) i.
+Proof.
+  intro H. unfold bound_morph_get, bind_morph. simpl.
+  rewrite norm_index_in_range by lia. rewrite Nat2Z.id. reflexivity.
 Qed.
